@@ -37,6 +37,8 @@ PATTERNS = [
     ("Capture('a', 'n') + Backreference('n')", ''), ("Capture(AnyFrom('a', 'b')) + Backreference(1)", ''),
     ("Optional(Capture('a', 'n')) + Conditional('n', 'b', 'a')", ''), ("Group('a', True)", 'A'), ("Pregex()", ''),
     ("Indefinite(Either('a', 'b')) + 'b'", ''), ("Either('a', Pregex('b') + 'a')", ''),
+    ("Either(MatchAtStart('a'), 'b')", ''), ("Either('a', MatchAtEnd('b'))", ''), ("Either(MatchAtLineStart('a'), 'b')", ''),
+    ("Either(MatchAtLineEnd('a'), 'b')", ''), ("Either(PrecededBy('a', 'b'), 'a')", ''), ("Either(MatchAtStart(Pregex()), 'b') + 'a'", ''),
     ("Pregex(\"\\\\'\")", "\\'"), ("Pregex('\\\\\"')", '\\"'), ("Pregex(\"\\\\'\" + '\"')", "\\'\""), ("AnyFrom(Backslash(), \"'\")", "\\'"),
     ("Pregex('\\\\n')", '\\n'), ("Pregex('\\\\') + Newline()", '\\'), ("Pregex('a\\\\\\\\' + \"'\")", "\\'"),
 ]
@@ -649,7 +651,8 @@ def run_C14(run):
     thorough = run.tier == 'thorough'
     L = 6 if thorough else 4
     contents = universe('é', L, base='ab\n')
-    contents += ['ab\nba\n\naab\n', 'aé\nb/a\n', '@PATH@', 'a' * 12 + 'b' + 'a' * 12, '\n\n\n', 'ab ba\tab\n' * 3]
+    contents += ['ab\nba\n\naab\n', 'aé\nb/a\n', '@PATH@', 'a' * 12 + 'b' + 'a' * 12, '\n\n\n', 'ab ba\tab\n' * 3,
+                 '\ufeffab', '\ufeff', 'a\ufeffb', ('ab ' * 40) + 'b', 'b' * 70 + 'a', '\x00a', 'a\x1ab', 'a\x85b\u2028a', ' a', 'a ', '\ta\x0bb\x0c']
     sizes = [(0, 0), (1, 0), (0, 1), (2, 2), (5, 5), (8, 8), (1, 8), (8, 1), (40, 40)]
     exprs = C14_PATTERNS if thorough else C14_PATTERNS[:9]
     tasks = [([e], c, sizes) for e in exprs for c in common.chunks(contents, max(1, len(contents) // 4 + 1))]
